@@ -21,15 +21,47 @@ fn classify(want: &[NormEl], got: &[NormEl]) -> &'static str {
 }
 
 pub fn check_format(s: &str, acc: &mut Acc) {
+    check_format_as(s, Wrap::Single, acc)
+}
+
+/// How the format is written on the command line: between single quotes, between double quotes,
+/// or as a bare word (which ends at a blank or a `)` and nowhere else - in particular not at a
+/// comma, an operator sign or a dash).
+#[derive(Clone, Copy, PartialEq, Debug)]
+pub enum Wrap {
+    Single,
+    Double,
+    Bare,
+}
+
+pub fn check_format_as(s: &str, wrap: Wrap, acc: &mut Acc) {
     acc.states += 1;
     acc.transitions += 1;
     acc.validated += 1;
-    if s.contains('\'') {
-        acc.skip("format containing a single quote (not expressible in this wrapper)");
-        return;
-    }
-    let input = format!("-printf '{s}'");
-    let wit = || json!({"kind": "format", "format": s});
+    let input = match wrap {
+        Wrap::Single => {
+            if s.contains('\'') {
+                acc.skip("format containing a single quote (not expressible in this wrapper)");
+                return;
+            }
+            format!("-printf '{s}'")
+        }
+        Wrap::Double => {
+            if s.contains('"') || s.is_empty() {
+                acc.skip("format containing a double quote (not expressible in this wrapper)");
+                return;
+            }
+            format!("-printf \"{s}\"")
+        }
+        Wrap::Bare => {
+            if s.is_empty() || s.starts_with('\'') || s.starts_with('"') || s.chars().any(|c| " \t\r\n)".contains(c)) {
+                acc.skip("format that is not one bare word");
+                return;
+            }
+            format!("-printf {s}")
+        }
+    };
+    let wit = || json!({"kind": "format", "format": s, "wrap": format!("{wrap:?}")});
     let spec = textspec::format(s);
     if let FmtRes::Unspec(r) = spec {
         acc.skip(r);
@@ -144,8 +176,32 @@ pub fn run(ctx: &Ctx) -> i32 {
     let mut d = Acc::new();
     for s in &docs {
         check_format(s, &mut d);
+        check_format_as(s, Wrap::Double, &mut d);
+        check_format_as(s, Wrap::Bare, &mut d);
+        check_bare_in_context(s, &mut d);
     }
     acc = acc.merge(d);
+    // the other two ways of writing a format on the command line: between double quotes and as a
+    // bare word, over an alphabet holding the signs that mean something elsewhere in the grammar
+    // (comma, dash, parenthesis, bang, the other quote) - inside a format they are literal text
+    {
+        const B: [char; 14] = ['%', 'p', 's', ',', '\\', 'n', '-', '(', '!', 'a', '{', '}', '\'', '"'];
+        let m = ctx.tier.pick(4, 5);
+        for len in 1..=m {
+            let total = (B.len() as u64).pow(len as u32);
+            acc = acc.merge(par_cases(total, |mut idx, acc| {
+                let mut s = String::with_capacity(len);
+                for _ in 0..len {
+                    s.push(B[(idx % B.len() as u64) as usize]);
+                    idx /= B.len() as u64;
+                }
+                check_format_as(&s, Wrap::Single, acc);
+                check_format_as(&s, Wrap::Double, acc);
+                check_format_as(&s, Wrap::Bare, acc);
+                check_bare_in_context(&s, acc);
+            }));
+        }
+    }
     // every ordered pair of documented elements (a directive directly after another, after %%,
     // after an escape), and every sequence of up to four pieces that only form a directive when
     // read from the wrong place
@@ -250,7 +306,7 @@ pub fn run(ctx: &Ctx) -> i32 {
             level: "model_checking",
             exhaustive: true,
             rule: "state = format string (BFS by appending one of 16 symbols), wrapped as -printf '<s>'; the element list in the returned tree is compared with an independent hand-written scanner after merging self-standing backslashes into text; raw list checked for empty/adjacent literals; distinct = distinct element lists".into(),
-            bound: format!("every string of length 1..{n} over {:?}; plus every documented directive and escape alone, doubled, between literals and next to %p, \\n, \\\\, \\101 ({} strings); every non-ASCII character of the Basic Multilingual Plane after '%', after a backslash and between directives; {} long formats (each element repeated 8..500 times, mixtures, five kinds of tail), each parsed three times in a row and used by two actions of one expression", ALPHA, docs.len(), longs.len()),
+            bound: format!("every string of length 1..{n} over {:?} between single quotes; every string of length 1..4 (thorough: 5) over % p s , \\ n - ( ! a {{ }} and both quote characters written between single quotes, between double quotes, as a bare word, and as a bare word followed by another primary, before a closing parenthesis and after a comma; plus every documented directive and escape alone, doubled, between literals and next to %p, \\n, \\\\, \\101 ({} strings); every non-ASCII character of the Basic Multilingual Plane after '%', after a backslash and between directives; {} long formats (each element repeated 8..500 times, mixtures, five kinds of tail), each parsed three times in a row and used by two actions of one expression", ALPHA, docs.len(), longs.len()),
             assumptions: vec![
                 "directive and escape tables from the doc comments of the subject's ast.rs / find(1); octal escapes take exactly three digits".into(),
                 "skipped as unspecified: 1-2 digit octal escapes, %A/%C/%T with undocumented selector, %{xattr:} with non-alphabetic name, % followed by flags or width".into(),
@@ -260,8 +316,79 @@ pub fn run(ctx: &Ctx) -> i32 {
     )
 }
 
+/// A bare-word format followed by further words: the format ends at the blank (or the `)`) and
+/// nowhere before it, and what follows is read as what it is.
+pub fn check_bare_in_context(s: &str, acc: &mut Acc) {
+    if s.is_empty() || s.starts_with('\'') || s.starts_with('"') || s.chars().any(|c| " \t\r\n)".contains(c)) {
+        return;
+    }
+    let want = match textspec::format(s) {
+        FmtRes::Ok(w) => Some(normalise(&w)),
+        FmtRes::Bad => None,
+        FmtRes::Unspec(_) => return,
+    };
+    for (k, input) in [format!("-printf {s} -print"), format!("( -printf {s})"), format!("-print , -printf {s}")].iter().enumerate() {
+        acc.states += 1;
+        acc.transitions += 1;
+        acc.validated += 1;
+        let wit = json!({"kind": "bare-context", "format": s});
+        let got = match parse_spec(input) {
+            PS::Panic(p) => {
+                acc.violate(Violation::new(format!("C14:panic:{}", panic_site(&p)), format!("parse({input:?}) panicked: {p}"), wit));
+                continue;
+            }
+            PS::Ok(_, t) => Some(t),
+            PS::Err(_) => None,
+        };
+        let f = match (k, &got) {
+            (0, Some(Expr::And(a, b))) => match (&**a, &**b) {
+                (Expr::Action(Action::Printf(f)), Expr::Action(Action::Print)) => Some(f.clone()),
+                _ => None,
+            },
+            (1, Some(Expr::Action(Action::Printf(f)))) => Some(f.clone()),
+            (2, Some(Expr::List(a, b))) => match (&**a, &**b) {
+                (Expr::Action(Action::Print), Expr::Action(Action::Printf(f))) => Some(f.clone()),
+                _ => None,
+            },
+            _ => None,
+        };
+        match (&want, got, f) {
+            (None, None, _) => acc.count("rejected", 1),
+            (None, Some(t), _) => acc.violate(Violation::new(
+                "C14:accepts-undocumented-directive",
+                format!("parse({input:?}) = {} although the bare-word format {s:?} contains a '%' not followed by a documented directive", t.show()),
+                wit,
+            )),
+            (Some(w), Some(_), Some(f)) if *w == normalise(&f) => {
+                acc.count("accepted", 1);
+                acc.outcome(&f);
+            }
+            (Some(w), Some(t), _) => acc.violate(Violation::new(
+                "C14:bare-word-format-cut-or-extended",
+                format!("parse({input:?}) = {}; the format is the whole bare word {s:?}, segmented as {w:?}, and the other words are read on their own", t.show()),
+                wit,
+            )),
+            (Some(w), None, _) => acc.violate(Violation::new(
+                "C14:rejects-valid-format",
+                format!("parse({input:?}) is rejected; the format is the bare word {s:?}, segmented as {w:?}"),
+                wit,
+            )),
+        }
+    }
+}
+
 pub fn replay(w: &Value) -> Vec<Violation> {
     let mut acc = Acc::new();
-    check_format(w["format"].as_str().unwrap_or(""), &mut acc);
+    let s = w["format"].as_str().unwrap_or("");
+    if w["kind"] == "bare-context" {
+        check_bare_in_context(s, &mut acc);
+    } else {
+        let wrap = match w["wrap"].as_str() {
+            Some("Double") => Wrap::Double,
+            Some("Bare") => Wrap::Bare,
+            _ => Wrap::Single,
+        };
+        check_format_as(s, wrap, &mut acc);
+    }
     acc.violations.into_values().map(|(v, _)| v).collect()
 }
